@@ -388,6 +388,20 @@ def describe_viewer(spec):
 # ----------------------------------------------------------------------------------------
 # work item 1: point targets
 # ----------------------------------------------------------------------------------------
+_DEFECT = []
+
+
+def defect_present():
+    """Canonical witness of the rotate-before-subtract defect (only used to NAME failures): a viewer
+    at (0,-4,0) facing south with a 90 deg field of view 'sees' the point 5 m behind it."""
+    if not _DEFECT:
+        s = S()
+        v = s.OrientedPoint._with(position=s.Vector(0, -4, 0), yaw=math.pi, viewAngles=(math.pi / 2, math.pi / 2), visibleDistance=10)
+        got = guarded(lambda: bool(v.canSee(s.Vector(0, 1, 0))))
+        _DEFECT.append(got is True)
+    return _DEFECT[0]
+
+
 def defect_prediction(cam, R, ang, vd, p, meshes):
     """Answer of the 'rotate the global target, then subtract the viewer position' computation
     (with its ray used for the occluders too).  Only used to NAME a failure."""
@@ -417,7 +431,8 @@ def eval_points(spec):
     kind = spec["kind"]
     viewer = build_viewer(spec)
     region = viewer.visibleRegion
-    affected = affected_by_defect_class(spec)
+    rotated_off = affected_by_defect_class(spec)
+    affected = rotated_off and defect_present()
     rad_m = RAD_M_FRAC * vd
     angkey = "-" if kind == "Point" else f"{spec['ang'][0]}x{spec['ang'][1]}"
     key = f"{kind}|{angkey}"
@@ -478,7 +493,7 @@ def eval_points(spec):
         exp = cls == M.IN
         acc.inc("point_cases")
         acc.flags.add(f"{key}|{'T' if exp else 'F'}")
-        if affected:
+        if rotated_off:
             acc.inc("rotated_off_origin_cases")
         if M.classify_point(cam, np.eye(3), ang, vd, p, 0.0, 0.0) != cls:
             acc.inc("nontrivial_orientation")
@@ -623,7 +638,8 @@ def eval_object(case):
     kind = spec["kind"]
     cam, R, ang, vd = model_of(spec)
     viewer = build_viewer(spec)
-    affected = affected_by_defect_class(spec)
+    rotated_off = affected_by_defect_class(spec)
+    affected = rotated_off and defect_present()
     rad_m = RAD_M_FRAC * vd
     angkey = "-" if kind == "Point" else f"{spec['ang'][0]}x{spec['ang'][1]}"
     key = f"{kind}|{angkey}"
@@ -702,7 +718,7 @@ def eval_object(case):
         vis[S_idx] = got
     acc.inc("object_cases")
     acc.inc(f"object_class_{cls}")
-    if affected:
+    if rotated_off:
         acc.inc("rotated_off_origin_cases")
 
     def describe(S_idx):
@@ -983,7 +999,8 @@ def eval_programs(payload):
     acc = Acc()
     cam, R, ang, vd = model_of(spec)
     kind = spec["kind"]
-    affected = affected_by_defect_class(spec)
+    rotated_off = affected_by_defect_class(spec)
+    affected = rotated_off and defect_present()
     groups = []
     passed = set()  # (group, form) that behaved as the reference says
     for pc in program_cases(spec):
